@@ -92,6 +92,81 @@ func jsonOf[T any](name string, covers ...string) tEntry {
 	}
 }
 
+// jsonValidated registers json.Unmarshal into T followed, when decoding succeeds, by the validation of the
+// decoded object against a fixed state in which both v1 and v2 transactions are allowed: an object that a JSON
+// API hands to validation is as untrusted as one from the wire.
+func jsonValidated[T any](name string, validate func(v *T)) tEntry {
+	e := jsonOf[T](name)
+	e.Name = name + "/json+validate"
+	e.Covers = nil
+	e.Call = func(in []byte) error {
+		v := new(T)
+		if err := json.Unmarshal(in, v); err != nil {
+			return err
+		}
+		validate(v)
+		return nil
+	}
+	return e
+}
+
+var (
+	jvOnce  sync.Once
+	jvState consensus.State
+)
+
+// jsonValState is the state after the genesis block of a network in which v2 is allowed from the start and v1 is
+// still allowed.
+func jsonValState() consensus.State {
+	jvOnce.Do(func() {
+		n := &consensus.Network{Name: "c10-json", InitialCoinbase: types.Siacoins(300000), MinimumCoinbase: types.Siacoins(30000),
+			InitialTarget: types.BlockID{0xFF}, BlockInterval: 10 * time.Minute, MaturityDelay: 3}
+		n.HardforkOak.GenesisTimestamp = time.Unix(1700000000, 0).UTC()
+		n.HardforkASIC.OakTime = 10000 * time.Second
+		n.HardforkASIC.OakTarget = n.InitialTarget
+		n.HardforkASIC.NonceFactor = 1009
+		n.HardforkV2.RequireHeight = 1000
+		n.HardforkV2.FinalCutHeight = 2000
+		g := types.Block{Timestamp: n.HardforkOak.GenesisTimestamp, Transactions: []types.Transaction{{
+			SiacoinOutputs: []types.SiacoinOutput{{Value: types.Siacoins(1000), Address: types.AnyoneCanSpend().Address()}},
+			SiafundOutputs: []types.SiafundOutput{{Value: 10000, Address: types.AnyoneCanSpend().Address()}},
+		}}}
+		jvState, _ = consensus.ApplyBlock(n.GenesisState(), g, consensus.V1BlockSupplement{Transactions: make([]consensus.V1TransactionSupplement, 1)}, time.Time{})
+	})
+	return jvState
+}
+
+func jsonValidateV1(t *types.Transaction) {
+	consensus.ValidateTransaction(consensus.NewMidState(jsonValState()), *t, consensus.V1TransactionSupplement{})
+}
+
+func jsonValidateV2(t *types.V2Transaction) {
+	consensus.ValidateV2Transaction(consensus.NewMidState(jsonValState()), *t)
+}
+
+func jsonValidateBlock(b *types.Block) {
+	cs := jsonValState()
+	consensus.ValidateOrphan(cs, *b)
+	// the same block placed on the tip (parent, time and, when there is a V2 part, height are the sender's choice)
+	pb := *b
+	pb.ParentID, pb.Timestamp = cs.Index.ID, cs.PrevTimestamps[0].Add(time.Second)
+	if pb.V2 != nil {
+		v2 := *pb.V2
+		v2.Height = cs.Index.Height + 1
+		pb.V2 = &v2
+	}
+	bs := consensus.V1BlockSupplement{Transactions: make([]consensus.V1TransactionSupplement, len(pb.Transactions))}
+	consensus.ValidateOrphan(cs, pb)
+	consensus.ValidateBlock(cs, pb, bs)
+	ms := consensus.NewMidState(cs)
+	for i := range b.Transactions {
+		consensus.ValidateTransaction(ms, b.Transactions[i], consensus.V1TransactionSupplement{})
+	}
+	for _, t := range b.V2Transactions() {
+		consensus.ValidateV2Transaction(ms, t)
+	}
+}
+
 func parseOf(name string, call func(s string) error, valid func(rng *rand.Rand) string) tEntry {
 	return tEntry{Name: name, Covers: []string{name}, Kind: "parse",
 		Call:  func(in []byte) error { return call(string(in)) },
@@ -201,6 +276,9 @@ func textRegistry() []tEntry {
 			jsonOf[types.ChainIndexElement](T + "ChainIndexElement"),
 			jsonOf[types.AttestationElement](T + "AttestationElement"),
 			jsonOf[types.Block](T + "Block"),
+			jsonValidated[types.Transaction](T+"Transaction", jsonValidateV1),
+			jsonValidated[types.V2Transaction](T+"V2Transaction", jsonValidateV2),
+			jsonValidated[types.Block](T+"Block", jsonValidateBlock),
 			jsonOf[types.BlockHeader](T + "BlockHeader"),
 			// --- consensus
 			textOf[consensus.Work]("consensus.Work"),
